@@ -391,7 +391,8 @@ class SDVRP(DepotRef):
         return "not"
 
     def step_bound(self):
-        return self.n + 1 + 2 * math.ceil(self.total / self.cap - 1e-9)
+        # two steps per customer plus one, one more pair per vehicle load under split delivery
+        return 2 * self.n + 1 + 2 * math.ceil(self.total / self.cap - 1e-9)
 
     def objective(self, actions):
         return -self.closed_length(actions)
